@@ -32,17 +32,17 @@ type impl struct {
 	calls map[string]int
 }
 
-func (i *impl) R0(ctx context.Context) error            { i.calls["R0"]++; return nil }
-func (i *impl) W0(ctx context.Context) error            { i.calls["W0"]++; return nil }
-func (i *impl) A0(ctx context.Context) error            { i.calls["A0"]++; return nil }
+func (i *impl) R0(ctx context.Context) error               { i.calls["R0"]++; return nil }
+func (i *impl) W0(ctx context.Context) error               { i.calls["W0"]++; return nil }
+func (i *impl) A0(ctx context.Context) error               { i.calls["A0"]++; return nil }
 func (i *impl) R1(ctx context.Context, x int) (int, error) { i.calls["R1"]++; return x + 1000, nil }
 func (i *impl) W1(ctx context.Context, x int) (int, error) { i.calls["W1"]++; return x + 1000, nil }
 func (i *impl) A1(ctx context.Context, x int) (int, error) { i.calls["A1"]++; return x + 1000, nil }
 
 type proxy struct {
-	R0 func(ctx context.Context) error            `perm:"r"`
-	W0 func(ctx context.Context) error            `perm:"w"`
-	A0 func(ctx context.Context) error            `perm:"a"`
+	R0 func(ctx context.Context) error               `perm:"r"`
+	W0 func(ctx context.Context) error               `perm:"w"`
+	A0 func(ctx context.Context) error               `perm:"a"`
 	R1 func(ctx context.Context, x int) (int, error) `perm:"r"`
 	W1 func(ctx context.Context, x int) (int, error) `perm:"w"`
 	A1 func(ctx context.Context, x int) (int, error) `perm:"a"`
